@@ -716,6 +716,23 @@ def monitor(op_line, out_line, st):
     G['stats'].setdefault('max_ratio', 0.0)
     if rhs > 0:
         G['stats']['max_ratio'] = max(G['stats']['max_ratio'], float(lhs / rhs))
+    # The same proved inequality with the residuals the solver *reports* for the returned point
+    # (Stats.ε = ApproxKKT residual, Stats.δ = ‖err_z‖∞; ≤ the requested tolerances when Converged):
+    # `kkt_error_bound` holds for every ε ≥ ‖r‖∞, δ ≥ ‖e‖∞, so this is the sharp form of the property's
+    # inequality (it is attained with equality on some instances) — a returned point that is not the
+    # one the residuals were computed for breaks it.
+    if math.isfinite(r['eps']) and math.isfinite(r['delta']) and r['eps'] <= tol and (mode != 'alm' or r['delta'] <= dtol):
+        eps_r = Fr(r['eps']) + Fr(marg_s)
+        delta_r = (Fr(r['delta']) + Fr(1e-12 * gs)) if (qp.m and mode == 'alm') else Fr(0)
+        rhs_r = eps_r * d1 + delta_r * e1
+        if rhs_r > 0:
+            G['stats']['max_ratio_reported'] = max(G['stats'].get('max_ratio_reported', 0.0), float(lhs / rhs_r))
+        if lhs > rhs_r:
+            return (f'{tag} Converged but the proved bound fails with the residuals reported for the returned '
+                    f'point: mu|x-x*|_2^2 = {float(lhs):.6g} > eps|x-x*|_1 + delta|y-y*|_1 = {float(rhs_r):.6g}  '
+                    f'(reported eps={r["eps"]:.3g} delta={r["delta"]:.3g}; mu={float(qp.mu):g} '
+                    f'|x-x*|_inf={max([abs(float(a - b)) for a, b in zip(X, xs)] + [0.0]):.3g} '
+                    f'|y-y*|_inf={max([abs(float(a - b)) for a, b in zip(Y, ys)] + [0.0]):.3g}, outer={r["outer"]})')
     G['stats'].setdefault('stacks', {}).setdefault(f'{stack}/{mode}', [0, 0, 0])
     e = G['stats']['stacks'][f'{stack}/{mode}']
     e[0] += 1; e[1] += r['inner_iters']; e[2] = max(e[2], r['inner_iters'])
